@@ -61,16 +61,20 @@ IsEvent(b) == l <= Len(JTrace) /\ Ev.b = b /\ l' = l + 1
 
 TraceReset == IsEvent("init") /\ ResetTo(Ev.reg)
 
+\* The registry after a block is part of every record written from inside the critical sections. Records laid
+\* out by checks/registry.py for two overlapping operations (probe mode) carry it on the last block only.
+RegOK == ("reg" \in DOMAIN Ev) => reg' = Ev.reg
+
 TraceSub ==
   /\ IsEvent("sub")
   /\ Subscribe(Ev.p, Ev.s)
-  /\ reg' = Ev.reg
+  /\ RegOK
   /\ EvCleaned = <<>> /\ EvSent = <<>>
 
 TraceUnsub ==
   /\ IsEvent("unsub")
   /\ Unsubscribe(Ev.p, Ev.id)
-  /\ reg' = Ev.reg
+  /\ RegOK
   /\ Last(hist').cnt = Ev.cnt
   /\ Last(hist').cleaned = SetOf(EvCleaned) /\ Len(EvCleaned) = Cardinality(SetOf(EvCleaned))
   /\ EvSent = <<>>
@@ -78,7 +82,7 @@ TraceUnsub ==
 TracePub1 ==
   /\ IsEvent("pub1")
   /\ Publish1(Ev.p, Ev.id, Ev.ev)
-  /\ reg' = Ev.reg
+  /\ RegOK
   /\ Last(hist').cnt = Ev.cnt
   /\ Last(hist').sent = EvSent
   /\ Last(hist').err = Ev.err
@@ -87,7 +91,7 @@ TracePub1 ==
 TracePub2 ==
   /\ IsEvent("pub2")
   /\ Publish2(Ev.p)
-  /\ reg' = Ev.reg
+  /\ RegOK
   /\ Last(hist').cleaned = SetOf(EvCleaned) /\ Len(EvCleaned) = Cardinality(SetOf(EvCleaned))
   /\ EvSent = <<>>
 
